@@ -440,7 +440,20 @@ type lookupInfo struct {
 	Atom core.Atom
 }
 
-func findLookups(d Driver, atoms []core.Atom) []lookupInfo {
+// isLookupCall: the call is to a function of the driver's package that reads the sent-probe table (directly or through helpers).
+func isLookupCall(p *core.Prog, d Driver, call *core.Term) bool {
+	if call == nil || call.Op != "call" {
+		return false
+	}
+	site, ok := call.Val.(*ssa.Call)
+	if !ok {
+		return false
+	}
+	f := site.Common().StaticCallee()
+	return f != nil && core.FuncPkg(f) == core.FuncPkg(d.ReceiveProbe) && readsSentTable(p, d, f)
+}
+
+func findLookups(p *core.Prog, d Driver, atoms []core.Atom) []lookupInfo {
 	var out []lookupInfo
 	for _, a := range atoms {
 		n := a.Norm()
@@ -465,10 +478,7 @@ func findLookups(d Driver, atoms []core.Atom) []lookupInfo {
 				call = x.Args[0]
 			}
 		}
-		if call == nil || call.Op != "call" || len(call.Args) == 0 || call.Args[0].Op != "recv" {
-			continue
-		}
-		if !strings.HasPrefix(call.Name, "(*"+d.Name+").") {
+		if !isLookupCall(p, d, call) {
 			continue
 		}
 		out = append(out, lookupInfo{Call: call, Atom: a})
@@ -478,7 +488,7 @@ func findLookups(d Driver, atoms []core.Atom) []lookupInfo {
 		n := a.Norm()
 		if n.Sign && n.Cond.Op == "extract" && n.Cond.Args[0].Op == "call" {
 			call := n.Cond.Args[0]
-			if len(call.Args) > 0 && call.Args[0].Op == "recv" && strings.HasPrefix(call.Name, "(*"+d.Name+").") {
+			if isLookupCall(p, d, call) {
 				out = append(out, lookupInfo{Call: call, Atom: a})
 			}
 		}
